@@ -143,6 +143,50 @@ theorem hover_position_control (trim : ℝ) (pt vt : Fin 3 → ℝ) (qc : Fin 4 
     rw [yAxis_up _ _ (by rw [add_comm]; exact Real.sin_sq_add_cos_sq _)]
     ext i j; fin_cases i <;> fin_cases j <;> simp [frame]
 
+/-- stage 1, log-linear cascade (SE₂(3) outer loop): at zero group error ζ = 0, zero feed-forward acceleration and an empty height
+    integrator the demanded force is `trim` straight up; the thrust command is `trim` and the set-point rotation is the pure
+    yaw rotation by the commanded heading -/
+theorem hover_se23_position_control (trim : ℝ) (kp : Fin 3 → ℝ) (qc : Fin 4 → ℝ) (dt : ℝ)
+    (htrim : (1152921504606847:ℝ) * 2 ^ (-60:ℤ) < trim) :
+    loglinear.se23_position_control_p.T_vec trim kp ![0, 0, 0, 0, 0, 0, 0, 0, 0] ![0, 0, 0] qc 0 dt = ![0, 0, trim]
+    ∧ loglinear.se23_position_control_p.nT trim kp ![0, 0, 0, 0, 0, 0, 0, 0, 0] ![0, 0, 0] qc 0 dt = trim
+    ∧ loglinear.se23_position_control_p.Rd_mat trim kp ![0, 0, 0, 0, 0, 0, 0, 0, 0] ![0, 0, 0] qc 0 dt
+        = !![Real.cos (loglinear.se23_position_control_p.yt trim kp ![0, 0, 0, 0, 0, 0, 0, 0, 0] ![0, 0, 0] qc 0 dt), -Real.sin (loglinear.se23_position_control_p.yt trim kp ![0, 0, 0, 0, 0, 0, 0, 0, 0] ![0, 0, 0] qc 0 dt), 0;
+             Real.sin (loglinear.se23_position_control_p.yt trim kp ![0, 0, 0, 0, 0, 0, 0, 0, 0] ![0, 0, 0] qc 0 dt), Real.cos (loglinear.se23_position_control_p.yt trim kp ![0, 0, 0, 0, 0, 0, 0, 0, 0] ![0, 0, 0] qc 0 dt), 0;
+             0, 0, 1] := by
+  have hP : loglinear.se23_position_control_p.P_vec trim kp ![0, 0, 0, 0, 0, 0, 0, 0, 0] ![0, 0, 0] qc 0 dt = ![0, 0, 0] := by
+    funext i; fin_cases i <;> simp [cas_defs, cas_real]
+  have hpos : (0:ℝ) < trim := lt_trans (by norm_num) htrim
+  have hT : loglinear.se23_position_control_p.T_vec trim kp ![0, 0, 0, 0, 0, 0, 0, 0, 0] ![0, 0, 0] qc 0 dt = ![0, 0, trim] := by
+    obtain ⟨h0, h1, h2⟩ := C15.se23_position_feedback_id trim kp ![0, 0, 0, 0, 0, 0, 0, 0, 0] ![0, 0, 0] qc 0 dt (by rw [hP]; simp)
+    funext i; fin_cases i
+    · simpa [hP] using h0
+    · simpa [hP] using h1
+    · simpa [hP] using h2
+  have hs : Real.sqrt (0 * 0 + 0 * 0 + trim * trim) = trim := by
+    rw [zero_mul, zero_add, zero_add]; exact Real.sqrt_mul_self hpos.le
+  obtain ⟨_, _, _, hcol, hn⟩ := C14.se23_position_control_setpoint trim kp ![0, 0, 0, 0, 0, 0, 0, 0, 0] ![0, 0, 0] qc 0 dt
+  refine ⟨hT, ?_, ?_⟩
+  · rw [hn, hT]; simpa using hs
+  · rw [C14.se23_position_control_frame, C14.se23_position_control_yB, hT]
+    have hz : zAxis 0 0 trim = ![0, 0, 1] := by
+      unfold zAxis; rw [hs, if_pos htrim]; simp [div_self (ne_of_gt hpos)]
+    simp only [Matrix.cons_val_zero, Matrix.cons_val_one, Matrix.cons_val_two, Matrix.head_cons, Matrix.tail_cons]
+    rw [hz]
+    simp only [Matrix.cons_val_zero, Matrix.cons_val_one, Matrix.cons_val_two, Matrix.head_cons, Matrix.tail_cons]
+    rw [yAxis_up _ _ (by rw [add_comm]; exact Real.sin_sq_add_cos_sq _)]
+    ext i j; fin_cases i <;> fin_cases j <;> simp [frame]
+
+/-- stage 2, log-linear cascade: the SE₂(3) attitude law at zero group error and the so(3) log-linear law at q = q_r command
+    zero rate (the position-controller cascade's stage 2 is `C15.attitude_zero_same`) -/
+theorem hover_se23_attitude (kp : Fin 3 → ℝ) :
+    loglinear.se23_attitude_control.omega_vec kp ![0, 0, 0, 0, 0, 0, 0, 0, 0] = ![0, 0, 0] := by
+  funext i; fin_cases i <;> simp [cas_defs, cas_real]
+theorem hover_so3_attitude (kp : Fin 3 → ℝ) (q : Fin 4 → ℝ) :
+    loglinear.so3_attitude_control.omega_0 kp q q = 0 ∧ loglinear.so3_attitude_control.omega_1 kp q q = 0
+      ∧ loglinear.so3_attitude_control.omega_2 kp q q = 0 := by
+  refine ⟨?_, ?_, ?_⟩ <;> simp only [cas_defs, cas_real] <;> ring_nf <;> simp
+
 /-- stage 3 (rate controller): zero rate error with empty integrator and derivative filter commands zero moment -/
 theorem hover_rate_control (kp ki kd i_max om : Fin 3 → ℝ) (f dt : ℝ) (hi : ∀ i, 0 ≤ i_max i) :
     rdd2.attitude_rate_control.M_vec kp ki kd f i_max om om ![0, 0, 0] ![0, 0, 0] ![0, 0, 0] dt = ![0, 0, 0] := by
